@@ -31,7 +31,8 @@ REQUIRED = {"reporter.tables_match_census": {"quick": 800, "thorough": 40000},
             "lists.failing_and_errored": {"quick": 1600, "thorough": 80000},
             "conservation.sum_equals_elements": {"quick": 3000, "thorough": 150000}}
 REQUIRED_SEEN = {"scenario_status_counted": ["passed", "failed", "error", "hook_error", "skipped", "untested"],
-                 "format_printed": FORMATS}
+                 "format_printed": FORMATS, "feature_titles": ["unique", "duplicate"],
+                 "interim_summary": ["printed_from_after_feature"]}
 NSHARDS = {"quick": 16, "thorough": 16}
 KINDS = ["feature", "rule", "scenario", "step"]
 
@@ -260,6 +261,20 @@ def run(spec, mon):
             kw["hook_plugins"] = [plug]
             case = dict(case, cleanup_plan={"register_in": target})
         reps = []
+        feats_abs = case["program"]["features"]
+        if i % 5 == 2 and len(feats_abs) >= 2 and not case["program"].get("user_skip"):
+            # two feature files with the same title (features/web/login.feature, features/api/login.feature): two features
+            feats_abs[1]["name"] = feats_abs[0]["name"]
+            mon.seen("feature_titles", "duplicate")
+        else:
+            mon.seen("feature_titles", "unique")
+        if i % 7 == 5:
+            # a progress summary printed by user code from a hook while the run is going on (public print_summary())
+            def interim(state, context, name, elem, tag):
+                if name == "after_feature" and reps:
+                    reps[0].print_summary(stream=io.StringIO(), with_duration=False)
+            kw.setdefault("hook_plugins", []).append(interim)
+            mon.seen("interim_summary", "printed_from_after_feature")
 
         def reporters(config):
             v1 = SummaryReporterV1(config)
@@ -274,6 +289,7 @@ def run(spec, mon):
             continue
         mon.check("reporter.format_from_userdata", reps[0].output_format == fmt, lambda: RB.witness(case, got=reps[0].output_format, want=fmt))
         check_run(lab, mon, case, obs, reps, fmt)
+        RB.check_identity(mon, obs, case, prefix="census")
         if i == 0:
             mon.sample({"features": RB.case_texts(case), "args": args, "census": census(lab, obs.features)[0]})
 
